@@ -55,3 +55,91 @@ Example C12_example_reject :
   min_cert [[2; 0; 1]; [0; 3; 1]; [2; 3; 2]]%Q 3 3 [0; 1; 2] [0; 1; 2] [[1 # 2; 0; 0]; [0; 1 # 3; 0]; [0; 0; 1]]%Q = false.
 Proof. vm_compute. reflexivity. Qed.
 Print Assumptions C12_example_reject.
+
+(* ---- the symbolic Gaussian elimination computes the rank of a NUMERIC coefficient matrix ---------
+   Model: SGE/Model.v (`gaussian_elimination`, the function tied exactly to
+   pytreenet/ttno/symbolic_gaussian_elimination_fraction.py by the C13 check); proofs:
+   SGE/NumericRank.v, SGE/NumericRankProofs.v.  Vocabulary:
+     numeric M            every entry of M is a rational constant `Num q` (no coefficient symbol)
+     val M i j : Qc       the rational in position (i,j)
+     nonzero_lines m n M  no row and no column of the m x n matrix M is identically zero (true for the
+                          coefficient matrix of a cut: every row / column index comes from a term)
+     diag_nz r M'         the r x r matrix M' is diagonal and its diagonal entries are non-zero
+     prod3 r r L M' R i j None   entry (i,j) of L * M' * R
+   Both inner dimensions of the returned factorisation L * M' * R coincide (M' is r x r), the product
+   is the input, and the input factors through NO inner dimension k < r, whatever X (m x k) and
+   Y (k x n) over Q: r is the rank of M, the minimum any exact representation can have.  M' being
+   diagonal with non-zero diagonal, the minimum vertex cover of its support -- the bond dimension the
+   TTNO builder derives from M' -- is r.
+   The statement is false with coefficient symbols (known finding C12-symbolic-suboptimal) and for
+   matrices with a zero line (C12_numeric_zero_line_example). *)
+From Coq Require Import ZArith Qcanon.
+From PTN Require SGE.Model SGE.ModelProofs SGE.NumericRank SGE.NumericRankProofs.
+Local Close Scope Qc_scope.
+Local Close Scope Q_scope.
+
+Theorem C12_numeric_minimal :
+  forall (m n : nat) (M : SGE.Model.mat) (L : SGE.Model.qmat) (M' : SGE.Model.mat) (R : SGE.Model.qmat),
+  length M = m /\ SGE.Model.rectE n M -> 1 <= m -> 1 <= n ->
+  NumericRank.numeric M -> NumericRank.nonzero_lines m n M ->
+  SGE.Model.gaussian_elimination M = Some (L, M', R) ->
+  exists r : nat, 1 <= r /\ r <= m /\ r <= n /\
+    (length L = m /\ SGE.Model.rectQ r L) /\ (length M' = r /\ SGE.Model.rectE r M') /\
+    (length R = r /\ SGE.Model.rectQ n R) /\
+    NumericRank.numeric M' /\ NumericRank.diag_nz r M' /\
+    (forall i j, i < m -> j < n -> SGE.Model.prod3 r r L M' R i j None = NumericRank.val M i j) /\
+    forall (k : nat) (X Y : nat -> nat -> Q), k < r ->
+      ~ (forall i j, i < m -> j < n ->
+           (this (NumericRank.val M i j) == sumn k (fun l => X i l * Y l j))%Q).
+Proof. exact NumericRankProofs.ge_numeric_minimal. Qed.
+Print Assumptions C12_numeric_minimal.
+
+(* the easy direction for every (also symbolic) input, at the constant coefficient: the input factors
+   through the number of rows of the reduced matrix *)
+Theorem C12_numeric_factor :
+  forall (m n : nat) (M : SGE.Model.mat) (L : SGE.Model.qmat) (M' : SGE.Model.mat) (R : SGE.Model.qmat),
+  length M = m /\ SGE.Model.rectE n M -> 1 <= m -> 1 <= n ->
+  SGE.Model.gaussian_elimination M = Some (L, M', R) ->
+  exists X Y : nat -> nat -> Q, forall i j, i < m -> j < n ->
+    (this (NumericRank.val M i j) == sumn (length M') (fun l => X i l * Y l j))%Q.
+Proof. exact NumericRankProofs.ge_numeric_factor. Qed.
+Print Assumptions C12_numeric_factor.
+
+(* one round of the two elimination loops that deletes no line, on abstract matrices without a zero
+   line, ends in a square diagonal matrix with non-zero diagonal (the core of the argument; `erun` is
+   the outer loop of row_elimination, column_elimination is the same relation on the transpose) *)
+Theorem C12_last_round : forall (m n : nat) (A B C : NumericRank.fmat), NumericRank.good m n A ->
+  NumericRank.erun 0 m n A m B -> NumericRank.erun 0 n m (NumericRank.tr B) n (NumericRank.tr C) ->
+  m = n /\ NumericRank.fdiag m C.
+Proof. exact NumericRankProofs.last_round. Qed.
+Print Assumptions C12_last_round.
+
+(* the executable versions of the two hypotheses are sound *)
+Theorem C12_numeric_hypotheses_checkable : forall (m n : nat) (M : SGE.Model.mat),
+  NumericRank.numericb M = true -> NumericRank.nonzero_linesb m n M = true ->
+  NumericRank.numeric M /\ NumericRank.nonzero_lines m n M.
+Proof.
+  exact (fun m n M H1 H2 => conj (NumericRankProofs.numericb_ok M H1)
+           (NumericRankProofs.nonzero_linesb_ok m n M (NumericRankProofs.numericb_ok M H1) H2)).
+Qed.
+Print Assumptions C12_numeric_hypotheses_checkable.
+
+(* non-vacuity: a 3 x 4 integer matrix of rank 2 (row 3 = row 1 + row 2, columns 1 and 2 parallel)
+   satisfies the hypotheses; the reduced matrix is the 2 x 2 identity, L is 3 x 2 and R is 2 x 4 *)
+Example C12_numeric_example :
+  let M := NumericRank.num_mat [[1; 2; 3; 4]; [2; 4; 6; 9]; [3; 6; 9; 13]]%Z in
+  NumericRank.numericb M = true /\ NumericRank.nonzero_linesb 3 4 M = true /\
+  option_map (fun res => match res with (L, M', R) =>
+                (length L, length M', SGE.Model.ncols M', length R, SGE.Model.ncols R,
+                 SGE.Model.enc_rows SGE.Model.encE M') end)
+             (SGE.Model.gaussian_elimination M)
+  = Some (3, 2, 2, 2, 4, [2; 2; 0; 1; 1; 0; 0; 0; 1; 0; 2; 0; 0; 1; 0; 0; 1; 1; 0]%Z).
+Proof. vm_compute. repeat split; reflexivity. Qed.
+Print Assumptions C12_numeric_example.
+
+(* the hypothesis "no zero line" is needed: the 2 x 2 zero matrix (rank 0) is returned unreduced *)
+Example C12_numeric_zero_line_example :
+  option_map (fun res => match res with (L, M', R) => (length M', SGE.Model.ncols M') end)
+             (SGE.Model.gaussian_elimination (NumericRank.num_mat [[0; 0]; [0; 0]]%Z)) = Some (2, 2).
+Proof. vm_compute. reflexivity. Qed.
+Print Assumptions C12_numeric_zero_line_example.
